@@ -26,7 +26,7 @@ func init() {
 		Expl: "Decides on SSA, for every production implementation of swap.LightningClient and both channel-bound methods (PayInvoiceViaChannel, RebalancePayment), following parameters through the static call tree: " +
 			"(R1) every CLN payment primitive reached is glightning SendPay; its route argument is a slice literal with exactly one hop whose Id and AmountMsat are the Payee / AmountMsat of the invoice decoded (DecodeBolt11) from the method's payreq parameter, whose ShortChannelId is the method's channel parameter passed through lightning.Scid.ClnStyle (which replaces ':' by 'x'); the msat, payment-hash and bolt11 arguments come from the same decoded invoice / the same payreq. " +
 			"(R2) every LND payment primitive reached is RouterClient.SendPaymentV2; its request is a composite literal whose PaymentRequest is the payreq parameter, MaxParts is the constant 1, OutgoingChanIds is a one-element literal holding ChanId of the channel returned by a lookup that was given the channel parameter and only returns a channel selected under an equality test between that parameter and a value derived from the candidate; no other routing/amount field is set; and the literal (or the primitive) is dominated by the passing edge of `decoded.Destination == channel.RemotePubkey` for the invoice decoded from the same payreq and the same channel. " +
-			"(R3) no production code calls LightningClient.PayInvoice; every call of PayInvoiceViaChannel / RebalancePayment passes as channel a parameterless SwapData method (GetScid, GetScidInBoltFormat) or the request's Scid field of the same SwapData its payreq field is read from, and that method returns only the Scid of the stored swap-in/swap-out request (possibly re-spelled with strings.ReplaceAll) or \"\"; any other node-API call inside the payment methods must be one of the classified non-paying calls (else undecided). " +
+			"(R3) no production code calls LightningClient.PayInvoice; every call of PayInvoiceViaChannel / RebalancePayment passes as channel a parameterless SwapData method (GetScid, GetScidInBoltFormat) or the request's Scid field of the same SwapData its payreq field is read from, and that method returns only the Scid of the stored swap-in/swap-out request (possibly re-spelled with strings.ReplaceAll) or \"\"; every other node-API call reachable from the payment methods through static in-module calls (on any path, including error and retry paths, and through in-module wrappers such as PayInvoice) is classified: non-paying calls are ignored, a path-finding primitive (glightning Pay/PayBolt/keysend/xpay/renepay, lnd SendPaymentSync without an outgoing-channel restriction) is a violation because the payment can then leave the swap channel, explicit-route primitives other than SendPay/SendPayLite and unclassified calls are undecided. " +
 			"Quantified over all implementations, call paths, route/request literals and call sites.",
 		NotD: "What the Lightning node does with a correct request (trusted); CLTV values (C04/C05); that both spellings of a channel id are accepted by the LND lookup (only that a returned channel was matched against the requested id); probe payments (ProbePayment sends an unsettleable HTLC and is not a fee or claim payment).",
 		Run:  runC24,
@@ -398,19 +398,61 @@ func c24IsZero(v ssa.Value) bool {
 // ---- node API classification -----------------------------------------------------------
 
 // Calls on the node API inside a payment method. Frozen, confirmed by reading
-// glightning/lightning.go and lnrpc: the "harmless" ones do not create an HTLC.
+// glightning/lightning.go (da2a093f) and lnd v0.18.4 lnrpc / routerrpc.
+//
+// harmless: does not create an HTLC.
 var c24Harmless = map[string]string{
 	"DecodeBolt11":       "decodes an invoice",
+	"DecodePay":          "decodes an invoice",
 	"WaitSendPay":        "waits for a sendpay that was already issued",
+	"WaitSendPayPart":    "waits for a sendpay part that was already issued",
 	"ListSendPaysByHash": "lists payments",
+	"ListSendPays":       "lists payments",
+	"ListSendPaysAll":    "lists payments",
+	"ListPays":           "lists payments",
+	"ListPaysToBolt11":   "lists payments",
+	"ListPayStatuses":    "lists payment attempts",
+	"GetPayStatus":       "lists payment attempts",
+	"GetRoute":           "computes a route, sends nothing",
+	"GetRouteSimple":     "computes a route, sends nothing",
 	"DecodePayReq":       "decodes an invoice",
 	"ListChannels":       "lists channels",
+	"ListPeers":          "lists peers",
+	"GetPeer":            "peer info",
+	"QueryRoutes":        "computes a route, sends nothing",
+	"BuildRoute":         "computes a route, sends nothing",
+	"EstimateRouteFee":   "estimates a fee, sends nothing",
+	"TrackPaymentV2":     "follows a payment that was already issued",
+	"TrackPayment":       "follows a payment that was already issued",
+	"TrackPayments":      "follows payments that were already issued",
+	"ListPayments":       "lists payments",
+	"LookupInvoice":      "invoice info",
 	"Recv":               "reads the payment status stream",
 	"CloseSend":          "closes the stream",
 	"Context":            "stream context",
 	"Header":             "stream metadata",
 	"Trailer":            "stream metadata",
 	"GetInfo":            "node info",
+}
+
+// path-finding: the node chooses the route itself (any channel, several hops,
+// several parts). Reaching one of these from a channel-bound payment method on
+// any path — also an error / retry path — breaks the property.
+var c24PathFinding = map[string]string{
+	"Pay":             "lightningd `pay`: path-finding, multi-part",
+	"PayBolt":         "lightningd `pay`: path-finding, multi-part",
+	"KeySend":         "lightningd `keysend`: path-finding",
+	"Keysend":         "lightningd `keysend`: path-finding",
+	"Xpay":            "lightningd `xpay`: path-finding, multi-part",
+	"RenePay":         "lightningd `renepay`: path-finding, multi-part",
+	"SendPaymentSync": "lnd SendPaymentSync: path-finding",
+	"SendPayment":     "lnd SendPayment: path-finding",
+}
+
+// explicit-route primitives other than SendPay: bound to the route they are
+// given, which the rules do not model (undecided, not a violation).
+var c24ExplicitRoute = map[string]bool{
+	"SendOnion": true, "SendOnionWithDetails": true, "SendToRoute": true, "SendToRouteSync": true, "SendToRouteV2": true,
 }
 
 func c24NodeAPI(w *an.World, ci an.CallInfo) (method string, is bool) {
@@ -433,7 +475,7 @@ const (
 func runC24(c *an.Check) {
 	c.Rule("C24.R1", "CLN: the only payment primitive behind PayInvoiceViaChannel/RebalancePayment is SendPay with a one-hop route literal (Id, AmountMsat from the decoded invoice; ShortChannelId = ClnStyle(channel parameter)) and msat/hash/bolt11 of the same invoice")
 	c.Rule("C24.R2", "LND: the only payment primitive is SendPaymentV2 with a request literal: PaymentRequest = payreq parameter, MaxParts = 1, OutgoingChanIds = {lookup(channel parameter).ChanId}, no other routing/amount field, dominated by invoice destination == channel.RemotePubkey")
-	c.Rule("C24.R3", "package swap pays only through PayInvoiceViaChannel / RebalancePayment with GetScid() of the swap the payreq belongs to; LightningClient.PayInvoice has no production caller; unclassified node-API calls in a payment method are undecided")
+	c.Rule("C24.R3", "package swap pays only through PayInvoiceViaChannel / RebalancePayment with GetScid() of the swap the payreq belongs to; LightningClient.PayInvoice has no production caller; no path-finding node primitive is reachable from a channel-bound payment method on any path; unclassified node-API calls there are undecided")
 	w := c.W
 	if !needEffects(c, fxPay, fxPayViaChannel, fxPayInvoice) {
 		return
@@ -493,18 +535,22 @@ func runC24(c *an.Check) {
 						continue
 					}
 					switch {
-					case m == "SendPay" && ci.Static != nil:
+					case (m == "SendPay" || m == "SendPayLite") && ci.Static != nil:
 						nPrim++
 						nSendPay++
-						c24SendPay(c, prefix, fr, call)
+						c24SendPay(c, prefix, fr, call, m == "SendPayLite")
 					case m == "SendPaymentV2" && ci.Iface != nil:
 						nPrim++
 						nSendV2++
 						c24SendPaymentV2(c, prefix, fr, call)
 					case c24Harmless[m] != "":
 						// classified: does not pay
+					case c24PathFinding[m] != "":
+						c24PathFindingCall(c, prefix, fr, call, ci, m)
+					case c24ExplicitRoute[m]:
+						c.Unknown("C24.R3", prefix+" node API "+m, w.Pos(call.Pos()), "call of "+ci.Name+" (via "+c24Chain(w, fr)+"): an explicit-route primitive other than SendPay; the payment is bound to the route it is given, which the rules do not model")
 					default:
-						c.Unknown("C24.R3", prefix+" node API "+m, w.Pos(call.Pos()), "call of "+ci.Name+" inside a channel-bound payment method is not classified (paying primitives other than SendPay / SendPaymentV2 are not modelled)")
+						c.Unknown("C24.R3", prefix+" node API "+m, w.Pos(call.Pos()), "call of "+ci.Name+" (via "+c24Chain(w, fr)+") inside a channel-bound payment method is not classified")
 					}
 				}
 			})
@@ -515,6 +561,48 @@ func runC24(c *an.Check) {
 	c.AtLeast("C24.R2", "SendPaymentV2 call paths behind the channel-bound methods", nSendV2, 2)
 	c24Normaliser(c)
 	c24Callers(c)
+}
+
+// c24Chain renders the static call path of a frame: entry -> ... -> fn.
+func c24Chain(w *an.World, fr *c24Frame) string {
+	var names []string
+	for x := fr; x != nil; x = x.up {
+		names = append([]string{w.FuncName(x.fn)}, names...)
+	}
+	return strings.Join(names, " -> ")
+}
+
+// c24PathFindingCall: a path-finding payment primitive is reachable from a
+// channel-bound payment method (on whatever path: the success path, an error
+// path, a retry). lnd's unary SendPaymentSync carries an OutgoingChanId field; a
+// request that sets it is not modelled (undecided), one that provably does not is
+// a violation like every other path-finding call.
+func c24PathFindingCall(c *an.Check, prefix string, fr *c24Frame, call ssa.CallInstruction, ci an.CallInfo, m string) {
+	w := c.W
+	cons := prefix + " reaches path-finding " + m
+	pos := w.Pos(call.Pos())
+	detail := "a channel-bound payment method reaches " + ci.Name + " (" + c24PathFinding[m] + ") via " + c24Chain(w, fr) + ": a path-finding payment can leave the swap channel (any channel, several hops, several parts), so the invoice may be settled without the HTLC over the swap channel"
+	if ci.Iface != nil {
+		args := call.Common().Args
+		if m != "SendPaymentSync" || len(args) < 2 {
+			c.Unknown("C24.R3", cons, pos, "path-finding lnd primitive whose request the rules cannot see (stream): "+ci.Name+" via "+c24Chain(w, fr))
+			return
+		}
+		lits, bad := c24Literals(w, c24Val{args[1], fr}, false, 0, map[ssa.Value]bool{})
+		if bad != "" || len(lits) == 0 {
+			c.Unknown("C24.R3", cons, pos, "path-finding lnd primitive with a request that is not a composite literal: "+bad)
+			return
+		}
+		for _, lit := range lits {
+			fields, fok := c24StructFields(lit.alloc)
+			if v := fields["OutgoingChanId"]; !fok || (v != nil && !c24IsZero(v)) {
+				c.Unknown("C24.R3", cons, pos, "SendPaymentSync with an OutgoingChanId restriction is not modelled (only SendPaymentV2 with OutgoingChanIds, MaxParts=1 and the destination guard is accepted)")
+				return
+			}
+		}
+		detail += "; the request sets no outgoing-channel restriction"
+	}
+	c.Bad("C24.R3", cons, pos, detail)
 }
 
 // verdict helper: mismatch on an opaque value is "cannot decide"
@@ -531,11 +619,11 @@ func c24Verdict(c *an.Check, ok bool, opaque bool, rule, cons, pos, good, bad st
 
 // ---- R1: CLN SendPay -----------------------------------------------------------------------
 
-func c24SendPay(c *an.Check, prefix string, fr *c24Frame, call ssa.CallInstruction) {
+func c24SendPay(c *an.Check, prefix string, fr *c24Frame, call ssa.CallInstruction, lite bool) {
 	w := c.W
 	pos := w.Pos(call.Pos())
 	args := call.Common().Args // recv, route, hash, label, msat, bolt11, secret, partid
-	if len(args) < 8 {
+	if (!lite && len(args) < 8) || len(args) < 3 {
 		c.Unknown("C24.R1", prefix+" SendPay", pos, "unexpected SendPay signature")
 		return
 	}
@@ -560,6 +648,17 @@ func c24SendPay(c *an.Check, prefix string, fr *c24Frame, call ssa.CallInstructi
 	if !decOK {
 		return
 	}
+	if !lite {
+		c24SendPayAmounts(c, prefix, fr, call, dec, payreq)
+	}
+	c24SendPayRoute(c, prefix, fr, call, dec)
+}
+
+// c24SendPayAmounts: bolt11 and msat arguments of the full SendPay.
+func c24SendPayAmounts(c *an.Check, prefix string, fr *c24Frame, call ssa.CallInstruction, dec, payreq c24Val) {
+	w := c.W
+	pos := w.Pos(call.Pos())
+	args := call.Common().Args
 	b := fr.resolve(args[5])
 	c24Verdict(c, b.same(payreq), c24Opaque(b.v), "C24.R1", prefix+" SendPay bolt11", pos, "bolt11 argument is the payreq parameter",
 		"the bolt11 argument is "+c24Describe(w, b)+", not the invoice that was decoded")
@@ -571,8 +670,13 @@ func c24SendPay(c *an.Check, prefix string, fr *c24Frame, call ssa.CallInstructi
 	mroot, mok := c24FieldOf(w, mv, "DecodedBolt11", "AmountMsat")
 	c24Verdict(c, mok && fr.resolve(mroot).same(dec), c24Opaque(c24Strip(args[4])), "C24.R1", prefix+" SendPay msat", pos, "amount argument is AmountMsat of the decoded invoice",
 		"the msat argument is "+c24Describe(w, fr.resolve(args[4]))+", not the amount of the decoded invoice")
+}
 
-	// route
+// c24SendPayRoute: the route argument (#1) of SendPay / SendPayLite.
+func c24SendPayRoute(c *an.Check, prefix string, fr *c24Frame, call ssa.CallInstruction, dec c24Val) {
+	w := c.W
+	pos := w.Pos(call.Pos())
+	args := call.Common().Args
 	lits, bad := c24Literals(w, c24Val{args[1], fr}, true, 0, map[ssa.Value]bool{})
 	if bad != "" || len(lits) == 0 {
 		c.Unknown("C24.R1", prefix+" SendPay route", pos, "the route argument is not a slice literal (possibly returned by a helper): "+bad)
